@@ -31,6 +31,8 @@ def shards(tier, seed):
     # what a gateway client delivers is a returned message too: hashes (and their absence) over the whole life of a client,
     # a lost and re-established connection included
     out += [{"name": f"client-{k}", "client": k, "tier": tier, "seed": seed} for k in ("ebyte", "yd", "waveshare", "actisense")]
+    # decoders of their own in several threads of one process (an application with one thread per gateway)
+    out += [{"name": "threads", "threads": True, "tier": tier, "seed": seed}]
     return out
 
 
@@ -204,9 +206,87 @@ def run_client(spec, acc):
                     break
 
 
+def run_threads(spec, acc):
+    """The hash is a function of (definition, key values): it is the same whichever decoder computes it, also when several
+    decoders - one per thread, nothing shared by the application - work at the same time. The expected hashes are computed
+    first, single-threaded; then every thread decodes the same lines on its own decoder while the interpreter switches
+    threads as often as it can."""
+    import sys
+    import threading
+    dbx = refdb.db()
+    rng = gen.rng_for(spec["seed"], ID, spec["name"])
+    quick = spec["tier"] == "quick"
+    defs = [d for d in dbx.defs if d.supported and d.fixed_layout and any(f.pk for f in d.fields) and (d.length or 0) and d.type in ("Single", "Fast")]
+    lines = []
+    ref = claimed_decoder([1, 2, 77])
+    ref._vf_plain = True
+    for d in rng.sample(defs, min(len(defs), 60 if quick else 300)):
+        for _ in range(3):
+            p = dbx.pack(d, gen.base_raws(d, rng, dbx))
+            if dbx.select(d.pgn, p) is not d:
+                continue
+            line = wire.plain_line(3, d.pgn, rng.choice([1, 2, 77]), 255, p.to_bytes(d.length, "little"))
+            try:
+                m = ref.decode_basic_string(line, already_combined=True)
+            except Exception:  # noqa: BLE001
+                continue
+            if m is not None and m.hash is not None:
+                lines.append((line, m.hash, d.id))
+    if len(lines) < 20:
+        acc.inconclusive_because("too few lines with a hash for the thread workload")
+        return
+    n_threads = 4
+    rounds = 40 if quick else 400
+    wrong, errors = [], []
+    start = threading.Barrier(n_threads)
+
+    def work(tid):
+        try:
+            dec = claimed_decoder([1, 2, 77])
+            dec._vf_plain = True
+            order = list(range(len(lines)))
+            random_ = gen.rng_for(spec["seed"], ID, "thread", tid)
+            start.wait()
+            for r_ in range(rounds):
+                random_.shuffle(order)
+                for i in order:
+                    line, want, did = lines[i]
+                    m = dec.decode_basic_string(line, already_combined=True)
+                    if m is None or m.hash != want:
+                        wrong.append((tid, did, want, None if m is None else m.hash))
+                        if len(wrong) > 20:
+                            return
+        except Exception as e:  # noqa: BLE001
+            errors.append(f"{type(e).__name__}: {e}")
+    old = sys.getswitchinterval()
+    sys.setswitchinterval(1e-6)
+    try:
+        ts = [threading.Thread(target=work, args=(t,)) for t in range(n_threads)]
+        for t in ts:
+            t.start()
+        for t in ts:
+            t.join(600)
+    finally:
+        sys.setswitchinterval(old)
+    n = n_threads * rounds * len(lines)
+    acc.count("hashes_computed_in_concurrent_threads", n)
+    acc.count("equal_key_pairs", n)
+    acc.count("mapping_on_checked", n)
+    acc.case(("threads", n_threads, len(lines), rounds))
+    acc.sample({"threads": n_threads, "lines": len(lines), "rounds_per_thread": rounds, "switch_interval": 1e-6})
+    if errors:
+        acc.violation("decode-raised-in-concurrent-threads", f"decoders of their own in {n_threads} threads: {errors[0]}", {"errors": errors[:5]})
+    if wrong:
+        tid, did, want, got = wrong[0]
+        acc.violation("equal-key-different-hash", f"{did}: hash {want} single-threaded, {got} on the decoder of thread {tid} while {n_threads - 1} other threads were decoding "
+                      f"on decoders of their own", {"definition": did, "expected": want, "got": got, "threads": n_threads, "wrong_results": len(wrong)})
+
+
 def run_shard(spec, acc):
     if spec.get("client"):
         return run_client(spec, acc)
+    if spec.get("threads"):
+        return run_threads(spec, acc)
     dbx = refdb.db()
     rng = gen.rng_for(spec["seed"], ID, spec["name"])
     quick = spec["tier"] == "quick"
